@@ -78,6 +78,15 @@ def cases(tier, seed):
     for ci, lam in enumerate(CLOSE):
         for kind in ("mono", "hh"):
             out.append({"key": f"spec/close/{ci}/{kind}", "grp": "spec", "n": len(lam), "lam": lam, "kind": kind, "scale": 0})
+    # 2x2 (and embedded in 3x3) matrices with a tiny non-zero off-diagonal entry: |b| = 2^-e (gap 1 or 3), both orders of the diagonal
+    for e in (30, 36, 40, 44, 48, 52, 60):
+        for order in ("asc", "desc"):
+            for n in (2, 3):
+                out.append({"key": f"tinyoff/n={n}/e={e}/{order}", "grp": "tinyoff", "n": n, "e": e, "order": order})
+    # exactly Hermitian matrices of size >= 8 / >= 32 with one eigenvalue that is exactly zero (dead first / last channel, diagonal with a zero)
+    for n in (8, 9, 12, 32, 33):
+        for where in ("last", "first", "diag"):
+            out.append({"key": f"exactzero/n={n}/{where}", "grp": "exactzero", "n": n, "where": where})
     # graded tridiagonal part of a rank-one matrix s s^H with geometrically decaying |s_k| (hard for the symmetric tridiagonal eigensolvers)
     for n, ratio in ((16, 10.0), (24, 4.0), (30, 3.0), (12, 10.0)):
         for q in (False, True):
@@ -125,6 +134,31 @@ def make_input(case, seed):
         fill = G.Fill(seed, stream=hash_tag(case["key"]))
         A, lay = xf_build(case["xf"], n, n, fill, hermitian=True)
         case["_lay"] = lay
+        return A, None
+    if grp == "tinyoff":
+        A = np.zeros((n, n, 4))
+        d = [1.0, 2.0, 5.0][:n] if case["order"] == "asc" else [5.0, 2.0, 1.0][-n:]
+        for i in range(n):
+            A[i, i, 0] = d[i]
+        b = np.ldexp(np.array([0.5, -1.0, 0.75, 0.25]), -case["e"])
+        A[0, 1] = b
+        A[1, 0] = b * O.CONJ
+        return A, None
+    if grp == "exactzero":
+        fill = G.Fill(seed, stream=hash_tag(case["key"]))
+        if case["where"] == "diag":
+            A = np.zeros((n, n, 4))
+            for i in range(n):
+                A[i, i, 0] = float(n - 1 - i)
+            return A, None
+        B = fill.quat(n, n, bits=3, lo=-8, hi=8)
+        A = O.qmatmul(B, O.qH(B)) / 16.0 + O.qeye(n)
+        A = 0.5 * (A + O.qH(A))
+        for i in range(n):
+            A[i, i, 1:] = 0.0
+        z = n - 1 if case["where"] == "last" else 0
+        A[z, :] = 0.0
+        A[:, z] = 0.0
         return A, None
     if grp == "gradedr1":
         sk = [case["ratio"] ** (-k) for k in range(n)]
